@@ -273,11 +273,9 @@ func SplitAtIndex[T ~string](str T, index int) []T {
 		return []T{str, ""}
 	}
 
-	for idx := range str {
-		if idx == index {
-			result = append(result, append(result, str[:idx+1], str[idx+1:])...)
-		}
-	}
+	// Split by byte position: ranging over the string would only stop at
+	// the first byte of each rune and miss every other index.
+	result = append(result, str[:index+1], str[index+1:])
 
 	return result
 }
